@@ -2,16 +2,17 @@
    scripts.  Written from the property text and the language documentation, not from runner.rs: there is no token
    position, no break_flag, no value stack, no function id arithmetic here.
 
-   Generic (like LoopSpec.v) in everything that is not control flow:
-     Name        variable / function names                    Atom, atom_sem   leaf commands (notes, rests, ...) and their effect
-     Val         values of expressions                        Op, op_sem,      operators / literals / built-in functions
-                                                              op_name          (and the name a built-in is called by)
-     World       everything outside the variables             print_out        the effect of PRINT on the world (a log line)
-                 (tracks, log, ...)                           limit_note       the logged error of a loop that is cut off
-     Bnd         what a name can be bound to, viewed through  decl_note        a note made when a declaration stores a value
-                 `view` as a value, a function or something   unbound          the value of a name that no frame binds
-                 opaque                                       N                the iteration limit
-     FId, funs   function identities and their definitions (parameters with declared defaults, body)
+   Generic (like LoopSpec.v) in everything that is not control flow.  The types
+     Name        variable / function names                    Atom             leaf commands (notes, rests, ...)
+     Val         values of expressions                        Op               operators / literals / built-in functions
+     World       everything outside the variables             Bnd              what a name can be bound to, viewed through
+                 (tracks, log, ...)                                            `view` as a value, a function or something opaque
+     FId         function identities                          Err              errors a leaf can raise
+   and the record `lang` of their operations: equality of names, the name `Result`, truth of a value, the values "none" and
+   "zero", X++ on a value, the effect of a leaf on the world (l_atom_sem), the operators (l_op_sem; l_op_name = the name a
+   built-in function is called by), the value of an unbound name, the log line of PRINT (l_print_out), the logged error of
+   a loop that is cut off (l_limit_note), a note made when a declaration stores a value (l_decl_note), the iteration limit
+   N (l_limit).  `funs` maps function identities to definitions (parameters with declared defaults, body).
 
    Meaning, in words:
      * a block runs its statements in order; a statement ends Normal or raises a signal Brk / Cont / Ret which ends the
@@ -396,3 +397,21 @@ Arguments for_sem {Name Atom Op Val World Bnd FId Err} L funs block left cnd inc
 Arguments exec_stmt {Name Atom Op Val World Bnd FId Err} L funs block s c.
 Arguments exec_seq {Name Atom Op Val World Bnd FId Err} L funs block b c.
 Arguments sem {Name Atom Op Val World Bnd FId Err} L funs n b c.
+Arguments l_name_eqb {Name Atom Op Val World Bnd FId Err} l.
+Arguments l_result_name {Name Atom Op Val World Bnd FId Err} l.
+Arguments l_view_of {Name Atom Op Val World Bnd FId Err} l.
+Arguments l_bnd_val {Name Atom Op Val World Bnd FId Err} l.
+Arguments l_truth {Name Atom Op Val World Bnd FId Err} l.
+Arguments l_vnone {Name Atom Op Val World Bnd FId Err} l.
+Arguments l_vzero {Name Atom Op Val World Bnd FId Err} l.
+Arguments l_is_none {Name Atom Op Val World Bnd FId Err} l.
+Arguments l_vincr {Name Atom Op Val World Bnd FId Err} l.
+Arguments l_atom_sem {Name Atom Op Val World Bnd FId Err} l.
+Arguments l_op_sem {Name Atom Op Val World Bnd FId Err} l.
+Arguments l_op_name {Name Atom Op Val World Bnd FId Err} l.
+Arguments l_unbound {Name Atom Op Val World Bnd FId Err} l.
+Arguments l_print_out {Name Atom Op Val World Bnd FId Err} l.
+Arguments l_limit_note {Name Atom Op Val World Bnd FId Err} l.
+Arguments l_decl_note {Name Atom Op Val World Bnd FId Err} l.
+Arguments l_limit {Name Atom Op Val World Bnd FId Err} l.
+Arguments mkLang {Name Atom Op Val World Bnd FId Err}.
